@@ -2811,6 +2811,14 @@ sexp sexp_read_complex_tail (sexp ctx, sexp in, sexp real) {
       default_real = real;
       real = (c=='-') ? SEXP_NEG_ONE : SEXP_ONE;
       goto trailing_i;
+    } else if (c2=='n' || c2=='N') {  /* +nan.0i */
+      res = sexp_read_symbol(ctx, in, c2, 1);
+      if (res == sexp_intern(ctx, "nan.0i", -1)) {
+        res = sexp_make_flonum(ctx, sexp_nan);
+        res = sexp_make_complex(ctx, real, res);
+      } else if (!sexp_exceptionp(res)) {
+        res = sexp_read_error(ctx, "invalid complex numeric syntax", res, in);
+      }
     } else {
       sexp_push_char(ctx, c2, in);
       /* read imaginary part */
@@ -3927,8 +3935,10 @@ sexp sexp_read_raw (sexp ctx, sexp in, sexp *shares) {
         else if (strcasecmp(str+1, "nan.0") == 0)
           res = sexp_make_flonum(ctx, sexp_nan);
 #if SEXP_USE_COMPLEX
-        else if (strncasecmp(str+1, "inf.0", 5) == 0) {
-          tmp = sexp_make_flonum(ctx, c1 == '+' ? sexp_pos_infinity : sexp_neg_infinity);
+        else if (strncasecmp(str+1, "inf.0", 5) == 0
+                 || strncasecmp(str+1, "nan.0", 5) == 0) {
+          tmp = sexp_make_flonum(ctx, (str[1] == 'n' || str[1] == 'N') ? sexp_nan
+                                 : c1 == '+' ? sexp_pos_infinity : sexp_neg_infinity);
           if (str[6] == 0) {
             res = tmp;
           } else if ((str[6] == 'i' || str[6] == 'I') && str[7] == 0) {
